@@ -7,8 +7,6 @@ import registry
 
 NA_FIXED = {
     "C03": "position-exact rewrite semantics is cursor arithmetic over all rule x word pairs; no necessary condition is visible in code shape beyond what the type checker enforces (static analysis not applicable, see DESIGN.md §3 C03)",
-    "C05": "length/stress/tone tables are realised as loops and comparisons on run lengths (value arithmetic); the only structural sub-clause (tier writes guarded) is checked under C14 (DESIGN.md §3 C05)",
-    "C07": "capture fidelity is an identity on run-time values across a dozen code paths; no checkable structural clause that is also necessary (DESIGN.md §3 C07)",
     "C09": "render/parse round trip depends on per-bundle diacritic search behaviour (~400k values); only the symbol tables are structural and those are checked under C13 (DESIGN.md §3 C09)",
 }
 ALL = ["C%02d" % i for i in range(1, 21)]
